@@ -193,7 +193,7 @@ static int streamMessage(void *ptr, const MPT_STRUCT(message) *msg)
 			tmp.used = sizeof(hdr);
 			tmp.cont = 0;
 			tmp.clen = 0;
-			mpt_stream_reply(&srm->data, srm->rd.len, srm->rd.val, msg);
+			streamReply(rc, &tmp);
 		}
 		return ret;
 	}
